@@ -591,10 +591,9 @@ func buildCSV(s src) *file {
 // formats
 
 type format struct {
-	target  string // clause name component
-	build   func(s src) *file
-	dict    []string
-	seeds   func() [][]byte // hostile constants for the native fuzz targets
+	target string // clause name component
+	build  func(s src) *file
+	dict   []string
 }
 
 func buildSTL(s src) *file {
@@ -778,12 +777,147 @@ var plyDict = []string{"ply\n", "format ascii 1.0\n", "format binary_little_endi
 
 var csvDict = []string{",", ",", "\n", "\r\n", "\r", "\"", "\"\"", " ", "0,0,1,1\n", "1.5", "-2E+10", ";", "\x00", "\xff", "\xef\xbb\xbf"}
 
+// count token: mostly small, sometimes hostile
+func countTok(s src) string {
+	if s.Int(0, 3, "hostile") == 0 {
+		return pick(s, hostileTokens, "token")
+	}
+	return strconv.Itoa(s.Int(0, 5, "small"))
+}
+
+func numTok(s src) string {
+	if s.Int(0, 5, "hostile") == 0 {
+		return pick(s, hostileTokens, "token")
+	}
+	return floatTok(s)
+}
+
+// skeleton writes the outline of a file of the target's format out of dictionary
+// tokens: structurally plausible (so that header parsing is usually passed), with
+// counts, types, arities and values that need not agree with each other.
+func skeleton(s src, target string, b *bytes.Buffer) {
+	switch target {
+	case "ReadSTL":
+		if s.Int(0, 1, "ascii") == 1 {
+			b.WriteString("solid" + pick(s, []string{"", " s", "\t"}, "name") + "\n")
+			for i := s.Int(0, 12, "lines"); i > 0; i-- {
+				switch s.Int(0, 5, "line") {
+				case 0:
+					b.WriteString("facet normal " + numTok(s) + " " + numTok(s) + " " + numTok(s) + "\n")
+				case 1, 2:
+					b.WriteString("vertex " + numTok(s) + " " + numTok(s) + " " + numTok(s) + "\n")
+				case 3:
+					b.WriteString("endfacet\n")
+				case 4:
+					b.WriteString(pick(s, []string{"outer loop\n", "endloop\n", "endsolid\n", "endsolid", "\n", "vertex 1 2\n", "facet normal 0 0\n"}, "other"))
+				default:
+					b.WriteString(pick(s, stlDict, "token"))
+				}
+			}
+			return
+		}
+		b.Write(make([]byte, 80))
+		n := s.Int(0, 4, "records")
+		cnt := int64(n + s.Int(-1, 1, "off"))
+		if s.Int(0, 2, "hostile") == 0 {
+			cnt = pick(s, hostileCounts(int64(n)), "count")
+		}
+		b.Write(encodeInt("u32le", cnt))
+		for i := 0; i < n*50+s.Int(-3, 3, "slack"); i++ {
+			b.WriteByte(byte(s.Int(0, 255, "byte")))
+		}
+	case "ReadOFF":
+		b.WriteString("OFF" + pick(s, []string{"\n", " ", "\n", "  "}, "sep"))
+		nv, nf := s.Int(0, 6, "nv"), s.Int(0, 4, "nf")
+		hv, hf := strconv.Itoa(nv), strconv.Itoa(nf)
+		if s.Int(0, 4, "hostile") == 0 {
+			hv = countTok(s)
+		}
+		if s.Int(0, 4, "hostile") == 0 {
+			hf = countTok(s)
+		}
+		b.WriteString(hv + " " + hf + " " + countTok(s) + "\n")
+		for i := 0; i < nv; i++ {
+			b.WriteString(numTok(s) + " " + numTok(s) + " " + numTok(s) + "\n")
+		}
+		for i := 0; i < nf; i++ {
+			k := s.Int(0, 5, "arity")
+			if s.Int(0, 5, "hostile") == 0 {
+				b.WriteString(countTok(s))
+			} else {
+				b.WriteString(strconv.Itoa(k))
+			}
+			for j := 0; j < k; j++ {
+				if s.Int(0, 9, "hostile") == 0 {
+					b.WriteString(" " + countTok(s))
+				} else {
+					b.WriteString(" " + strconv.Itoa(s.Int(0, max(nv, 1), "index")))
+				}
+			}
+			b.WriteString("\n")
+		}
+	case "ReadColorPLY", "PLYReader":
+		format := pick(s, plyFormats, "format")
+		b.WriteString("ply\nformat " + format + " 1.0\n")
+		plyCount := func() string {
+			if s.Int(0, 7, "hostile") == 0 {
+				return pick(s, hostileTokens, "token")
+			}
+			return strconv.Itoa(s.Int(0, 4, "small"))
+		}
+		types := append(append(append([]string{}, plyAllTypes...), plyAllTypes...), "int64", "list")
+		names := []string{"x", "y", "z", "red", "green", "blue", "vertex_index", "foo"}
+		if target == "ReadColorPLY" && s.Int(0, 1, "standard") == 0 {
+			b.WriteString("element vertex " + plyCount() + "\nproperty float x\nproperty float y\nproperty float z\nproperty uchar red\nproperty uchar green\nproperty uchar blue\n")
+			b.WriteString("element face " + plyCount() + "\nproperty list uchar int vertex_index\n")
+		} else {
+			for e := s.Int(0, 3, "elements"); e > 0; e-- {
+				b.WriteString("element " + pick(s, []string{"vertex", "face", "edge"}, "ename") + " " + plyCount() + "\n")
+				for p := s.Int(0, 4, "props"); p > 0; p-- {
+					b.WriteString("property ")
+					if s.Int(0, 2, "list") == 0 {
+						b.WriteString("list " + pick(s, types, "lentype") + " ")
+					}
+					b.WriteString(pick(s, types, "type") + " " + pick(s, names, "pname") + "\n")
+				}
+			}
+		}
+		b.WriteString("end_header\n")
+		for i := s.Int(0, 30, "values"); i > 0; i-- {
+			if format == "ascii" {
+				b.WriteString(numTok(s) + pick(s, []string{" ", " ", " ", "\n"}, "sep"))
+			} else if s.Int(0, 3, "kind") == 0 {
+				b.Write(encodeInt("u32le", pick(s, hostileCounts(3), "word")))
+			} else {
+				b.WriteByte(byte(s.Int(0, 4, "smallbyte")))
+			}
+		}
+	case "DecodeCSV":
+		for r := s.Int(0, 6, "rows"); r > 0; r-- {
+			nf := 4
+			if s.Int(0, 5, "arity") == 0 {
+				nf = s.Int(1, 6, "nf")
+			}
+			for j := 0; j < nf; j++ {
+				if j > 0 {
+					b.WriteString(",")
+				}
+				b.WriteString(numTok(s))
+			}
+			b.WriteString(pick(s, []string{"\n", "\n", "\r\n", ""}, "eol"))
+		}
+	}
+}
+
 // soup draws a byte string from a format's token dictionary.
 func soup(s src, fm *format) ([]byte, string) {
 	var b bytes.Buffer
-	mode := s.Int(0, 3, "mode")
+	mode := s.Int(0, 5, "mode")
 	note := "soup"
-	if mode >= 2 {
+	if mode >= 4 {
+		skeleton(s, fm.target, &b)
+		note = "skeleton+soup"
+	} else if mode >= 2 {
 		// a valid file's prefix (often the whole header) followed by dictionary tokens
 		v := fm.build(s).bytes()
 		cut := len(v)
@@ -794,6 +928,9 @@ func soup(s src, fm *format) ([]byte, string) {
 		note = "prefix+soup"
 	}
 	n := s.Int(0, 30, "ntokens")
+	if mode >= 4 {
+		n = s.Int(0, 4, "ntokens")
+	}
 	for i := 0; i < n && b.Len() < maxInput; i++ {
 		switch k := s.Int(0, 9, "tokenkind"); {
 		case k <= 5:
